@@ -47,7 +47,7 @@ def _work(job: tuple[str, str, str, int]) -> tuple[str, t.Any]:
     try:
         model = _FORK_MODELS.get((root, gen))
         if model is None:
-            model = EmitModel(Repo(root), gen)
+            model = EmitModel(Repo(root, normalize=False), gen)
             _FORK_MODELS[(root, gen)] = model
         paths = model.run_paths(entry, loop_max=loop_max)
         kind = entry_kind(model, entry)
